@@ -957,6 +957,13 @@ static int apply_patch(cJSON *object, const cJSON *patch, const cJSON_bool case_
 
         if (opcode == MOVE)
         {
+            /* a value cannot be moved into one of its own children */
+            const size_t from_length = strlen(from->valuestring);
+            if ((strncmp(from->valuestring, path->valuestring, from_length) == 0) && (path->valuestring[from_length] == '/'))
+            {
+                status = 9;
+                goto cleanup;
+            }
             value = detach_path(object, (unsigned char*)from->valuestring, case_sensitive);
         }
         if (opcode == COPY)
